@@ -1847,6 +1847,10 @@ func (data *Data) DropRetentionPolicy(database, name string) error {
 		return nil
 	}
 	delete(di.RetentionPolicies, name)
+	if name != "" && di.DefaultRetentionPolicy == name {
+		// the default policy is gone: do not keep naming it
+		di.DefaultRetentionPolicy = ""
+	}
 
 	return nil
 }
